@@ -283,4 +283,46 @@ Proof.
   destruct (Hrec s o (conj Ho Hst)) as [_ (al & Hal & Hi & _) _].
   unfold ips_of. rewrite Hg, Hal, Hi. apply same_ips_refl.
 Qed.
+
+(* ... and a Service WITHOUT a recorded address cannot take an address recorded for
+   another Service: whatever it holds after the pass that a recorded Service has in its
+   status, it holds as an admitted co-tenant (same sharing and backend key, disjoint ports) *)
+Theorem restart_unrecorded_cannot_take M w ps evs order ks wc wp we w' :
+  Inv M -> PoolCoh M -> s_pools M = ps ->
+  NoDup (map fst (w_api w)) ->
+  (forall s o, recd (w_api w) s o -> recorded_ok M s o) ->
+  wstep rank w ECrash = Some wc -> wstep rank wc (EPools ps) = Some wp ->
+  (forall s k, In (s, k) evs -> aget (w_api w) s <> None) -> early wp evs = Some we ->
+  wstep rank we (EReload order ks) = Some w' ->
+  forall s o x t alt, aget (w_api w) s = Some o -> In x (o_status o) -> t <> s ->
+    get_alloc (c_mem (w_ctl w')) t = Some alt -> In x (a_ips alt) ->
+    exists al, get_alloc (c_mem (w_ctl w')) s = Some al /\ same_ips (a_ips al) (o_status o) /\ shareable alt al.
+Proof.
+  intros IM PM Hps Hnd Hrec Hc Hpl Hex Hea Hre s o x t alt Ho Hx Hne Hg Hxt.
+  assert (Hst : o_status o <> []) by (intros E; rewrite E in Hx; destruct Hx).
+  destruct (restart_keeps_recorded M w ps evs order ks wc wp we w' IM PM Hps Hnd Hrec Hc Hpl Hex Hea Hre s o Ho Hst) as [_ Hs].
+  destruct (Hrec s o (conj Ho Hst)) as [_ (al & Hal & Hi & _) _].
+  (* memory after the pass is Inv *)
+  assert (HI' : Inv (c_mem (w_ctl w'))).
+  { unfold wstep in Hc, Hpl. cbn in Hc, Hpl. injection Hc as <-. cbn in Hpl. injection Hpl as <-.
+    match type of Hea with early ?w1 _ = _ =>
+      destruct (early_noop evs w1 we eq_refl Hex Hea) as (Eapi & Ectl & Egate & Erel) end.
+    cbn in Eapi, Ectl, Erel.
+    unfold wstep in Hre. cbn [wstep_t] in Hre. rewrite Erel in Hre. cbn [negb] in Hre.
+    destruct (negb _) in Hre; [discriminate|].
+    destruct (reload_pass rank we order ks false []) as [[[w1 retry] rs1]|] eqn:EP; [|discriminate].
+    cbn [option_map fst] in Hre. injection Hre as <-. cbn [w_ctl].
+    assert (Hminv : mem_inv (w_ctl we)).
+    { unfold mem_inv. rewrite Ectl. cbn. split; [split; [constructor|intros e1 e2 y []]|intros e []]. }
+    assert (Hhp : c_have_pools (w_ctl we) = true) by (rewrite Ectl; reflexivity).
+    exact (proj1 (proj1 (reload_pass_inv rank _ _ _ _ _ _ _ _ EP Hminv Hhp))). }
+  unfold ips_of in Hs. destruct (get_alloc (c_mem (w_ctl w')) s) as [al'|] eqn:Hg'.
+  2:{ exfalso. destruct (o_status o) as [|y l]; [congruence|]. destruct (Hs y) as [_ H]. apply H. left. reflexivity. }
+  exists al'. split; [reflexivity|].
+  assert (Hx' : In x (a_ips al')) by (apply Hs; exact Hx).
+  split.
+  - exact Hs.
+  - apply (get_alloc_In _ _ _ (proj1 HI')) in Hg. apply (get_alloc_In _ _ _ (proj1 HI')) in Hg'.
+    exact (proj2 HI' (t, alt) (s, al') x Hg Hg' Hne Hxt Hx').
+Qed.
 End Restart.
